@@ -138,7 +138,8 @@ func (s Shape) Source(pkg string) string {
 
 // SourceDeco derives a decorated variant of the shape (C14): mode 1 = excluded fields (unexported, and exported but
 // tagged "-", of assorted Go types) inserted at every position; mode 2 = the struct's whole field run moved into an
-// embedded struct. level -1 decorates every struct, otherwise only structs at that nesting depth (0 = root).
+// embedded struct; mode 3 = every leaf column is declared together with an unexported field of the same type
+// (`N0, hidden0 int32`). level -1 decorates every struct, otherwise only structs at that nesting depth (0 = root).
 func (s Shape) SourceDeco(pkg string, mode, level int) string {
 	var types []string
 	ctr := 0
@@ -157,7 +158,12 @@ func (s Shape) SourceDeco(pkg string, mode, level int) string {
 			fn := fmt.Sprintf("N%d", ctr)
 			ctr++
 			if c.Leaf {
-				fields = append(fields, fmt.Sprintf("\t%s %s%s `parquet:\"%s\"`", fn, c.Kind.Prefix(), c.elem(), strings.ToLower(fn)))
+				names := fn
+				if mode == 3 && on {
+					// an unexported field declared together with a column: `N0, hidden0 int32`
+					names = fmt.Sprintf("%s, hidden%d", fn, ctr-1)
+				}
+				fields = append(fields, fmt.Sprintf("\t%s %s%s `parquet:\"%s\"`", names, c.Kind.Prefix(), c.elem(), strings.ToLower(fn)))
 			} else {
 				tn := name + fn
 				mk(c.Children, tn, depth+1)
